@@ -90,20 +90,31 @@ def initialize_dates_from_taxa(tree, taxa, tag='date'):
     max_date = max(dates)
     # a leaf's index is not the position of its taxon when the tree was parsed
     # with use_postorder_indices: look the date up by taxon
-    dates_by_id = {taxon.id: taxon[tag] for taxon in taxa}
+    # (taxa given as plain records without an id are in the order of the leaf
+    # indices, as the command line passes them)
+    if all(hasattr(taxon, 'id') for taxon in taxa):
+        dates_by_id = {taxon.id: taxon[tag] for taxon in taxa}
+
+        def date_of(node):
+            return dates_by_id[node.taxon.label]
+
+    else:
+
+        def date_of(node):
+            return taxa[node.index][tag]
 
     # parse dates
     if max_date != 0.0:
         # time starts at 0
         if min(dates) == 0.0:
             for node in tree.leaf_node_iter():
-                node.date = dates_by_id[node.taxon.label]
+                node.date = date_of(node)
                 node.original_date = node.date
         # time is a year
         else:
             for node in tree.leaf_node_iter():
-                node.date = max_date - dates_by_id[node.taxon.label]
-                node.original_date = dates_by_id[node.taxon.label]
+                node.date = max_date - date_of(node)
+                node.original_date = date_of(node)
     else:
         for node in tree.leaf_node_iter():
             node.date = 0.0
